@@ -24,4 +24,44 @@ PROPS = {
 }
 
 
+def _kernel_frames(run):
+    """[F4] re-entrancy of the kernels the parallel loops call: no store through a caller-owned
+    object, no store to a file-scope variable (frame-only pass, every path)."""
+    from dvc import verify
+    P = {'s1': 'cptr:val', 'l1': 'int', 's2': 'cptr:val', 'l2': 'int', 'settings': ('cstruct', 'DTWSettings')}
+    Pn = dict(list(P.items())[:4] + [('ndim', 'int')] + list(P.items())[4:])
+    run.program.function('dd_dtw.c::dtw_distance')
+    obs = []
+    stats = {}
+    for n, pp in (('dtw_distance', P), ('dtw_distance_euclidean', P), ('dtw_distance_ndim', Pn),
+                  ('dtw_distance_ndim_euclidean', Pn)):
+        o, st = verify.frame_only(run.program, 'dd_dtw.c::' + n, pp)
+        obs += o
+        stats['dd_dtw.c::' + n] = dict(paths=st['paths'], stores_examined=st['stores_examined'],
+                                       frame_obligations=len(o))
+    run.evidence_extra['kernel_frame_analysis'] = stats
+    return obs
+
+
+PROPS['C07'] = dict(
+    modules=['contracts.dtw_matrix_c', 'contracts.dtw_omp_c'],
+    contracts=['dd_dtw_openmp.c::dtw_distances_prepare'] + [
+        'dd_dtw_openmp.c::dtw_distances_%s_parallel' % k for k in
+        ('ptrs', 'ndim_ptrs', 'matrix', 'ndim_matrix', 'matrices', 'ndim_matrices')],
+    lemmas=['LenFullClosed', 'LenRectClosed', 'RowsBefore', 'RowsBeyond', 'LenFullBeyond', 'LenRowsNonneg'],
+    extra_obligations=_kernel_frames,
+    level='proof',
+    level_text='Each *_parallel routine is proved (unbounded, all blocks/sizes) to satisfy literally the postcondition '
+               'of its serial twin, and its `#pragma omp parallel for` is proved data-race free for two arbitrary '
+               'distinct iterations (privatisation, pairwise disjoint writes, no cross-iteration reads, re-entrant '
+               'kernels); schedule- and thread-count-independence then follows from the OpenMP memory model (assumed).',
+    level_note='Trusted: OpenMP runtime executes every iteration exactly once and a race-free loop is equivalent to a '
+               'sequential order (A3); dvc C semantics (A2); solvers (A7). No interleaving is executed. The '
+               'multiprocessing branches of dtw.distance_matrix are not yet under contract (see DESIGN).',
+    trusted_base=['A2: C semantics as encoded by dvc', 'A3: OpenMP runtime / memory model', A7],
+    assumptions=['A2', 'A3 (OpenMP)', A7],
+    not_decided=['multiprocessing branches (Pool.map) of dtw.distance_matrix: not yet under contract'],
+    technique='contract-based deductive verification + data-race-freedom obligations (two-iteration non-interference) discharged by z3',
+)
+
 NOT_APPLICABLE = {p: 'not decided yet: machinery for this property is still being built (see DESIGN.md §9 order of work)' for p in ['C01', 'C02', 'C03', 'C04', 'C05', 'C06', 'C07', 'C08', 'C09', 'C10', 'C11', 'C12', 'C13', 'C14', 'C15', 'C16', 'C17', 'C18', 'C19', 'C20'] if p not in PROPS}
